@@ -50,15 +50,18 @@ type Case struct {
 	Tags      []string `json:"tags,omitempty"`
 	// topology phase only: several cooperating ip_set plugins (see topo.go)
 	Topo []TopoNode `json:"topo,omitempty"`
+	// lines phase only: the source as physical lines, and the bait planted in its comments (see lines.go)
+	Src   *Source `json:"source,omitempty"`
+	Baits []Item  `json:"baits,omitempty"`
 
 	ready bool
 }
 
-// prepare decodes the hex fields (replay) and derives the oracle rules.
-func (c *Case) prepare() error {
-	for i := range c.Items {
-		it := &c.Items[i]
-		if !c.ready {
+// prepItems decodes the hex fields (replay) and derives the oracle rules.
+func prepItems(items []Item, ready bool) error {
+	for i := range items {
+		it := &items[i]
+		if !ready {
 			b, err := hex.DecodeString(it.Addr)
 			if err != nil {
 				return err
@@ -84,6 +87,16 @@ func (c *Case) prepare() error {
 		} else {
 			it.r = rule{it.raw16, it.Bits}
 		}
+	}
+	return nil
+}
+
+func (c *Case) prepare() error {
+	if err := prepItems(c.Items, c.ready); err != nil {
+		return err
+	}
+	if err := prepItems(c.Baits, c.ready); err != nil {
+		return err
 	}
 	if !c.ready {
 		for i := range c.Probes {
@@ -372,6 +385,7 @@ type caseResult struct {
 	nTrue      int
 	nFalse     int
 	entries    []string // of the first append load, for samples
+	linesNT    bool     // lines phase: the case is non-trivial (see runLines)
 }
 
 func (e *env) runCase(c *Case) (res caseResult) {
@@ -393,6 +407,11 @@ func (e *env) runCase(c *Case) (res caseResult) {
 	if len(c.Topo) > 0 {
 		curLayer = "ipset-topology"
 		e.runTopo(c, &res)
+		return
+	}
+	if c.Src != nil {
+		curLayer = "lines"
+		e.runLines(c, &res)
 		return
 	}
 	rules := make([]rule, len(c.Items))
